@@ -23,10 +23,20 @@ def dispatch_harness(tier):
     for k, v in TIS.items(): d[k] = '((char*)&g_%s)' % v
     d['VERIF_STRCMP_BY_IDENTITY'] = 1
     shapes = []
+    import itertools
     for nf in ((1, 2) if tier == 'quick' else (1, 2, 3)):
         for na in (1, 2):
-            shapes.append(dict(d, NF=nf, NA=na, _tag='overloads=%d,args=%d' % (nf, na), _witness=('witness: overload chosen', 'witness: callee throws', 'witness: fallback') + (('witness: second candidate tried',) if nf >= 2 else ())))
-    h = Harness('D4.dispatch', ENG, [rx, rc], 'c06_dispatch.c', stubs=stubs, cuts=[r'Boxed_Value::~Boxed_Value'], shapes=shapes, opts=['--unwind', '5', '--unwindset', 'main.0:9,main.1:9,type_index.0:9,F_strcmp.0:40'], timeout=600, mem_gb=10,
+            for ars in itertools.product((-1, 1, 2), repeat=nf):
+                ncand = sum(1 for a in ars if a in (-1, na))
+                wit = (('witness: overload chosen', 'witness: callee throws') if ncand else ()) + (('witness: fallback',) if ncand < 2 else ()) + (('witness: exact match preferred',) if ncand >= 2 and any(a == na for a in ars[1:]) else ())
+                sh = dict(d, NF=nf, NA=na, _tag='args=%d,arities=%s' % (na, '/'.join(str(a) for a in ars)), _witness=wit)
+                # with two or more candidates CBMC does not converge on dispatch()'s try/catch loop (the catch blocks jump back into the loop body: the
+                # unwinding assertion fails at every bound tried up to 24 although every concrete trace has <= 3 iterations); those shapes are
+                # decided for candidates that accept or throw a foreign exception - the ORDER of trial is what they are for
+                if ncand >= 2: sh['NO_REFUSALS'] = 1
+                for i, a in enumerate(ars): sh['AR%d' % i] = '(%d)' % a
+                shapes.append(sh)
+    h = Harness('D4.dispatch', ENG, [rx, rc], 'c06_dispatch.c', stubs=stubs, cuts=[r'Boxed_Value::~Boxed_Value'], shapes=shapes, opts=['--unwind', '12', '--unwindset', 'main.0:9,main.1:9,type_index.0:9'], timeout=600, mem_gb=10,
                 inputs=['farity', 'fptype', 'fbeh', 'atype', 'conv_bit'], note='arity in {-1,1,2}, declared/argument types over an 8-type universe, conversion table and per-overload outcome symbolic')
     h.need_globals = list(TIS.values())
     return h
